@@ -187,6 +187,20 @@ def cases_nd(rng, tier):
             cs.add(term, {'mode': mode, 'direction': d, 'ishape': ish, 'oshape': osh, 'offset': offs,
                           'dtype': dt.__name__, 'pad_const': c, 'arr': arr.tolist(),
                           'outcome': out[:10], 'input_kind': kind, 'input_kept': kept}, key)
+    # non-extended axes (kept or cropped) of length 0, 1, 2 next to extended ones: every mode, both directions
+    for mode, d in itertools.product(MODES, DIRS):
+        for ish, osh, offs in _nonext_configs(rng, mode, 8 if tier == 'quick' else 60):
+            a, b = (ish, osh) if d == 'forward' else (osh, ish)
+            arr = np.array([rng.randint(-9, 9) for _ in range(int(np.prod(a)))], dtype=float).reshape(a)
+            out, kept, kind = impl_resize(arr, tuple(b), offs, mode, 0, d, rng)
+            term = ('{| n_m := %s; n_d := %s; n_c := %s; n_cast := true; n_ishape := %s%%nat; n_arr := %s; '
+                    'n_oshape := %s%%nat; n_offs := %s%%Z; n_out := %s; n_kept := %s |}'
+                    % (T.PMODE[mode], DIRK[d], C.q(0), C.nats(a), C.qs(arr.ravel().tolist()),
+                       C.nats(b), C.zs(offs), out, C.b(kept)))
+            cs.add(term, {'mode': mode, 'direction': d, 'ishape': list(a), 'oshape': list(b), 'offset': offs,
+                          'dtype': 'float', 'pad_const': 0, 'arr': arr.tolist(), 'outcome': out[:10],
+                          'input_kind': kind, 'input_kept': kept, 'family': 'short-non-extended-axis'},
+                   (mode, d, tuple(a), tuple(b), tuple(offs), 'nonext', tuple(arr.ravel().tolist())))
     return cs
 
 
@@ -393,6 +407,45 @@ def range_oracle(X, op, offs):
     if all(m >= n for n, m in zip(X.shape, R.shape)):
         ok = ok and bool(np.array_equal(np.asarray(inv(op(x))), np.asarray(x)))
     return ok
+def legal_axis(mode, n, m, off):
+    # independent statement of which (length, new length, offset) an axis admits
+    if n == m:
+        return True
+    if not 0 <= off <= abs(m - n):
+        return False
+    if m < n or mode == 'constant':
+        return True
+    pl, pr = off, m - n - off
+    return {'periodic': pl <= n and pr <= n, 'symmetric': pl < n and pr < n,
+            'order0': n >= 1, 'order1': n >= 2}[mode]
+def expected_outcome(arr, newshp, offs, mode, c, direction):
+    # -> ('raise', None) | ('ok', array): what the documented behaviour is for this call
+    arr = np.asarray(arr); ish = arr.shape; osh = tuple(newshp)
+    small, large = (ish, osh) if direction == 'forward' else (osh, ish)
+    ok = all(legal_axis(mode, a, b, o) for a, b, o in zip(small, large, offs))
+    grows = any(b > a for a, b in zip(ish, osh))
+    if mode == 'constant' and grows and not np.can_cast(c, arr.dtype):
+        ok = False
+    if direction == 'adjoint' and mode == 'constant' and c != 0:
+        ok = False
+    if not ok:
+        return 'raise', None
+    if direction == 'forward':
+        return 'ok', ref_resize(arr, osh, offs, mode, c)
+    n = int(np.prod(osh)); cols = []        # adjoint = transpose of the reference forward matrix
+    for j in range(n):
+        e = np.zeros(n); e[j] = 1.0
+        cols.append(np.asarray(ref_resize(e.reshape(osh), ish, offs, mode, 0)).ravel())
+    M = np.array(cols).T.reshape(int(np.prod(ish)), n)
+    return 'ok', (M.T @ arr.ravel().astype(float)).reshape(osh)
+def case_oracle(arr, newshp, offs, mode, c, direction):
+    # the call itself as a failing input: raised although legal / returned although illegal / wrong values
+    kind, want = expected_outcome(arr, newshp, offs, mode, c, direction)
+    try:
+        got = resize_array(arr, tuple(newshp), offset=list(offs), pad_mode=mode, pad_const=c, direction=direction)
+    except ValueError as e:
+        return kind == 'raise', 'ValueError: %s' % e, want
+    return (kind == 'ok' and got.shape == tuple(newshp) and bool(np.array_equal(got, want))), got, want
 def matrix(f, ishape, oshape):
     n = int(np.prod(ishape)); cols = []
     for j in range(n):
@@ -684,7 +737,85 @@ def probes(rng, tier):
     out += range_flag_probes(rng, tier)
     out += input_kept_probes(rng, tier)
     out += inherit_probes(rng, tier)
+    out += nonextended_probes(rng, tier)
     return out
+
+
+def _nonext_configs(rng, mode, count):
+    """forward configurations (ishape, oshape, offsets) that are LEGAL and have at least one non-extended axis of
+    length 0, 1 or 2 (kept, or cropped to 0/1/2) next to extended, kept and cropped axes"""
+    out = []
+    while len(out) < count:
+        ndim = rng.choice([1, 2, 2, 3])
+        ish, osh, offs, small = [], [], [], False
+        for a in range(ndim):
+            kind = rng.choice(['kept-small', 'crop-small', 'extend', 'extend', 'kept', 'crop'])
+            if kind == 'kept-small':
+                n = rng.choice([0, 1, 1, 2]); ish.append(n); osh.append(n); offs.append(0); small = True
+            elif kind == 'crop-small':
+                m = rng.choice([0, 1, 1, 2]); n = m + rng.randint(1, 2)
+                ish.append(n); osh.append(m); offs.append(rng.randint(0, n - m)); small = True
+            elif kind == 'extend':
+                n = rng.randint({'order1': 2, 'symmetric': 2, 'order0': 1, 'periodic': 1}.get(mode, 0), 3)
+                lim = {'symmetric': n - 1, 'periodic': n}.get(mode, 2)
+                pl, pr = rng.randint(0, min(lim, 2)), rng.randint(0, min(lim, 2))
+                ish.append(n); osh.append(n + pl + pr); offs.append(pl)
+            elif kind == 'kept':
+                n = rng.randint(2, 3); ish.append(n); osh.append(n); offs.append(0)
+            else:
+                n = rng.randint(3, 4); m = rng.randint(2, n - 1)
+                ish.append(n); osh.append(m); offs.append(rng.randint(0, n - m))
+        if small and int(np.prod(ish)) <= 40 and int(np.prod(osh)) <= 60:
+            out.append((ish, osh, offs))
+    return out
+
+
+def nonextended_probes(rng, tier, only_mode=None):
+    """A legal resize must not raise: the size guard of a mode concerns only the axes that are extended.  Axes that
+    are kept or cropped may have length 0, 1, 2 (e.g. order1 (5,1)->(9,1), (1,5)->(1,8)), every mode, both directions."""
+    out = []
+    pre = "import numpy as np, odl\nfrom odl.util.numerics import resize_array\n" + _REF_SRC
+    fixed = [([5, 1], [9, 1], [2, 0]), ([1, 5], [1, 8], [0, 1]), ([3, 0], [5, 0], [1, 0]), ([2, 1], [4, 0], [1, 1]),
+             ([1], [1], [0]), ([0], [0], [0]), ([2, 1, 3], [4, 1, 2], [1, 0, 1])]
+    for mode in ([only_mode] if only_mode else MODES):
+        confs = [c for c in fixed if all(_REF['legal_axis'](mode, a, b, o) for a, b, o in zip(*c))]
+        confs += _nonext_configs(rng, mode, 6 if tier == 'quick' else 40)
+        for ish, osh, offs in confs:
+            for direction in DIRS:
+                a, b = (ish, osh) if direction == 'forward' else (osh, ish)
+                vals = [rng.randint(-9, 9) for _ in range(int(np.prod(a)))]
+                rp = pre + ("arr=np.array(%r,dtype=float).reshape(%r)\n"
+                            "ok,observed,expected=case_oracle(arr,%r,%r,%r,0,%r)\n" % (vals, a, tuple(b), offs, mode, direction))
+                ok, _ = _run(rp)
+                out.append(C.Probe(ok, 'legal-resize-raises-%s-%s' % (mode, direction),
+                                   'legal resize with a short non-extended axis must return the padded array: %s %s %s->%s offset %s'
+                                   % (mode, direction, a, b, offs), rp))
+    return out
+
+
+def case_probe(detail):
+    """The inputs of one array-level correspondence case as a probe: the call must raise exactly when the documented
+    limits say so, and otherwise return the reference values (independent oracle, no Coq model involved)."""
+    if 'domain' in detail or 'mode' not in detail or 'arr' not in detail:
+        return None
+    arr = np.array(detail['arr'])
+    if 'oshape' in detail:
+        newshp, offs = tuple(detail['oshape']), list(detail['offset'])
+    else:
+        newshp, offs = (detail['newshp'],), [detail['offset']]
+    dt = str(detail.get('dtype', 'float')).split('/')[0]
+    dt = 'float' if dt == 'complex' else dt
+    pre = "import numpy as np, odl\nfrom odl.util.numerics import resize_array\n" + _REF_SRC
+    rp = pre + ("arr=np.array(%r,dtype=%r).reshape(%r)\nok,observed,expected=case_oracle(arr,%r,%r,%r,%r,%r)\n"
+                % (arr.ravel().tolist(), dt, list(arr.shape), newshp, offs, detail['mode'], detail['pad_const'],
+                   detail['direction']))
+    ok, env = _run(rp)
+    raised = isinstance(env.get('observed'), str)
+    key = ('legal-resize-raises-%s-%s' % (detail['mode'], detail['direction'])) if (raised and not ok) \
+        else 'case-%s-%s' % (detail['mode'], detail['direction'])
+    return C.Probe(ok, key, 'correspondence case as failing input: resize_array %s %s %s->%s offset %s pad_const %r: %s'
+                   % (detail['mode'], detail['direction'], list(arr.shape), list(newshp), offs, detail['pad_const'],
+                      'implementation raised where the documented behaviour is a value' if raised else 'wrong outcome'), rp)
 
 
 _WRAP_SRC = """
@@ -885,7 +1016,12 @@ def search(rng, broken):
     for kind, what, detail in broken:
         if kind != 'correspondence' or not isinstance(detail, dict):
             continue
+        cp = case_probe(detail)          # the failing case itself first
+        if cp is not None:
+            cands.append(cp)
         mode = detail.get('mode')
+        if mode and 'domain' not in detail:
+            cands += nonextended_probes(rng, 'quick', only_mode=mode)
         if 'domain' in detail:      # operator case
             dom = detail['domain']
             conf = ([d[2] for d in dom], [tuple(d[3]) for d in dom], list(detail['ran_shp']),
@@ -903,8 +1039,8 @@ def search(rng, broken):
         if 'domain_weighting' in detail:
             cands += inherit_probes(rng, 'quick')
     if not cands:
-        cands = (transpose_probes(rng, 'thorough') + range_flag_probes(rng, 'thorough')
-                 + input_kept_probes(rng, 'quick') + inherit_probes(rng, 'quick'))
+        cands = (nonextended_probes(rng, 'thorough') + transpose_probes(rng, 'thorough')
+                 + range_flag_probes(rng, 'thorough') + input_kept_probes(rng, 'quick') + inherit_probes(rng, 'quick'))
     for p in cands:
         if not p.ok and p.key not in known:
             return p
